@@ -247,6 +247,11 @@ class AmplitudeChain(ModelDecay):
             print("Did not find at least one of the state particles from", *event_type)
             raise
 
+        # What is read depends on this input only, not on files read earlier
+        cls.all_particles = set()
+        cls.final_particles = set()
+        cls.cartesian = False
+
         fcs = get_from_parser(parsed, "fast_coherent_sum")
         if fcs:
             # One option line, holding one integer token
